@@ -9,6 +9,7 @@ The operators are the library's; the value of X*Y is additionally compared with 
 matrix / Hamilton product of the operand values (the opposite group satisfies all laws too).
 """
 import itertools, math
+import operator
 import numpy as np
 from mc import ref, alph
 from mc.core import call, HarnessError
@@ -352,6 +353,56 @@ def estr(e):
 
 # --------------------------------------------------------------------------- shards
 
+def chain_laws(ctx, rep):
+    """accumulation: n steps forward with a generator and n steps back return to the start; n right-multiplications equal
+    the integer power of the reference (n = 10, 100, 1000), with the binary, the in-place and the inverse forms"""
+    c = rep.cname
+    G = [g for g in rep.gens if np.all(np.abs(np.asarray(g[1])) < 1e4)]
+    if c.startswith('Twist'):
+        G = G[:3]
+    else:
+        G = G[:5]
+    fw = [('x*g', lambda x, g: x * g, lambda x, g: x * g.inv()), ('g*x', lambda x, g: g * x, lambda x, g: g.inv() * x)]
+    if hasdiv(rep):
+        fw.append(('x*g;x/g', lambda x, g: x * g, lambda x, g: x / g))
+        fw.append(('x*=g;x/=g', lambda x, g: operator.imul(x, g), lambda x, g: operator.itruediv(x, g)))
+    for (xn, xv), (gn, gv), (pn, f, bk), n in itertools.product(G[:3], G, fw, (10, 100, 1000)):
+        if c.startswith('Twist') and n == 1000:
+            continue
+        cid = 'C02/%s/chain/%s/x=%s/g=%s/n=%d' % (c, pn, xn, gn, n)
+        if not ctx.want(cid):
+            continue
+        ctx.case(cid, key=cid, trivial=(gn.startswith('I') and xn.startswith('I')))
+        P = dict(cls=c, law='chain', prog=pn, n=n)
+        x, g = rep.make(xv), rep.make(gv)
+
+        def go():
+            y = rep.make(xv)
+            for _ in range(n):
+                y = f(y, g)
+            mid = rep.val(y).copy()
+            for _ in range(n):
+                y = bk(y, g)
+            return mid, rep.val(y)
+        ok, r = call(go)
+        ctx.count('transitions', 2 * n)
+        if not ok:
+            ctx.fail(cid, c + '.expr', 'raises:' + type(r).__name__, P, '%d steps of %s raised %r' % (n, pn, r))
+            continue
+        mid, back = r
+        if not (np.all(np.isfinite(mid)) and np.all(np.isfinite(back))):
+            ctx.fail(cid, c + '.expr', 'nan', P, 'non-finite value after %d steps of %s' % (n, pn))
+            continue
+        x0 = np.asarray(xv, dtype=float)
+        if c.startswith('Twist'):
+            okk = ref.maxdiff(rep.motion(back), rep.motion(x0)) <= rep.tol * n * max(1.0, float(np.abs(rep.motion(mid)).max()))
+            d = ref.maxdiff(rep.motion(back), rep.motion(x0))
+        else:
+            okk, d = rep.same(back, x0, rep.scale(back, x0, mid) * n)
+        if not okk:
+            ctx.fail(cid, c + '.expr', 'mismatch', P, '%d steps of %s and back differ from the start by %.3g' % (n, pn, d))
+
+
 def shards(tier, seed):
     out = []
     for c in CLASSES:
@@ -365,6 +416,7 @@ def shards(tier, seed):
         for k in range(2 if tier == 'quick' else 8):
             out.append(('bfs', c, k, 2 if tier == 'quick' else 8))
         out.append(('seq', c))
+        out.append(('chain', c))
     return out
 
 
@@ -421,6 +473,8 @@ def run_shard(ctx, shard):
         bfs(ctx, rep, k, K)
     elif kind == 'seq':
         seq_laws(ctx, rep)
+    elif kind == 'chain':
+        chain_laws(ctx, rep)
 
 
 def canon(rep, v):
